@@ -166,6 +166,19 @@ def run_case(case, ctx):
     if out.tobytes() != out_then.tobytes():
         ctx.reject('returned_array_changed_by_a_later_call', observed=out[:4], expected=out_then[:4])
         return
+    if out.flags.writeable and case['seed'] % 3 == 0:
+        # ... and what the caller does to the array it was given does not reach the library: the same request again, same numbers
+        out *= 0.5
+        try:
+            again = np.asarray(fd_derivative(args[0], args[1], n=n, m=m))
+        except Exception as exc:
+            ctx.reject('raised', observed=repr(exc), detail=dict(repeated_request=True))
+            return
+        ctx.count('request_repeated_after_the_caller_modified_its_result')
+        if again.tobytes() != out_then.tobytes():
+            ctx.reject('result_depends_on_what_the_caller_did_to_an_earlier_result', observed=again[:4], expected=out_then[:4])
+            return
+        out = again
     if out.shape != (length,):
         ctx.reject('length', observed=list(out.shape), expected=[length])
         return
